@@ -153,6 +153,21 @@ const RECV: [&str; 8] = ["2024 2 29", "2023 1 31", "2021 12 31", "1900 3 15", "-
 
 pub fn generate_c17(rng: &mut Rng, thorough: bool) -> Vec<String> {
     let mut v = Vec::new();
+    // "a month that contradicts the month code is a RangeError" in every calendar: the crate's own field resolution
+    // (hook), for every month code of the calendar's shape - leap codes included - against the
+    // month of the same number and its neighbours
+    for cal in super::c03::CALENDARS {
+        if cal == "iso8601" { continue; }
+        for num in [1i128, 4, 5, 6, 12, 13] {
+            for leap in ["", "L"] {
+                for dm in [-1i128, 0, 1, 2] {
+                    let month = num + dm;
+                    if month < 1 || (!thorough && dm == 2 && num % 2 == 0) { continue; }
+                    v.push(format!("cal_res {cal} - - 2020 {month} M{num:02}{leap} 1"));
+                }
+            }
+        }
+    }
     // exhaustive over the pools for PlainDate (year x month x code x day x overflow) — all 2^k subsets are covered
     // because "-" is in every pool
     for y in YEARS { for m in MONTHS { for c in CODES { for d in DAYS {
